@@ -17,7 +17,7 @@ Covered by theorem (for all inputs of the stated shape, each with an explicit fu
   Letter, Digit, Identifier (`c10_identifier`); IntConstant and its value (`c10_int_literal`);
   the numbering loop of the Enum action (`c10_enum_numbering`);
   FieldType, BaseType, BaseTypeName, ContainerType, MapType, SetType, ListType, CppType (absent), WS,
-  TypeAnnotations (absent): `c10_type_roundtrip` — every annotation-free type, arbitrarily nested,
+  TypeAnnotations (absent): `c10_type_roundtrip_partial` — every annotation-free type, arbitrarily nested,
   in every white-space styling of its brackets, by induction over the type
   (`c10_type_roundtrip_canonical`, `c10_type_ws_invisible`);
   Whitespace, EOL, Comment, MultiLineComment, MultiLineCommentNoLineTerminator, SingleLineComment,
@@ -188,9 +188,11 @@ map, the lengths of the names and twice the lengths of the white-space runs.
 Hypothesis `Ok`: base names are the grammar's eight, named types are identifiers of which no type
 keyword is a prefix (the negation of the recorded finding keyword-prefix-identifier; without it the
 statement is false: `c10_type_roundtrip_counterexample`), the `w`s are white space.
-Not covered here (correspondence only): type annotations (rule TypeAnnotations) and comments after a
-base or container type inside the brackets. -/
-theorem c10_type_roundtrip (s : STy) (hok : s.Ok) (rest : List Char) (hr : SepOk rest) (ht : TokHead rest)
+PARTIAL — what is missing for the full statement "∀ Ty, ∀ style": (i) types carrying annotations
+(`i32 (a = "b")`, rule TypeAnnotations present), (ii) comments after a base or container type inside
+the brackets (`list<i32 /* c */>`: admitted by the `_` of BaseType / the container rules). Both are
+covered by the correspondence of suite c10 only. -/
+theorem c10_type_roundtrip_partial (s : STy) (hok : s.Ok) (rest : List Char) (hr : SepOk rest) (ht : TokHead rest)
     (F : Nat) (hF : s.cost + 110 ≤ F) :
     ∃ t, parse F grammar "FieldType" (s.render ++ rest) = .ok t rest ∧ evTy (tyFuel t) t = some s.erase := by
   obtain ⟨t, mid, h1, hmid, htx, hev⟩ := fieldType_styled s hok [] rest (IsGap.nil _) (by simpa using hr) hr.noParen ht
@@ -207,7 +209,7 @@ round trip covers all of them. -/
 theorem c10_type_roundtrip_canonical (ty : Ty) (hna : NoAnns ty) (hok : (STy.canon ty).Ok) (rest : List Char)
     (hr : SepOk rest) (ht : TokHead rest) (F : Nat) (hF : (STy.canon ty).cost + 110 ≤ F) :
     ∃ t, parse F grammar "FieldType" ((STy.canon ty).render ++ rest) = .ok t rest ∧ evTy (tyFuel t) t = some ty := by
-  have := c10_type_roundtrip (STy.canon ty) hok rest hr ht F hF
+  have := c10_type_roundtrip_partial (STy.canon ty) hok rest hr ht F hF
   rwa [STy.erase_canon ty hna] at this
 
 /-- White space inside the brackets is invisible: two stylings of the same type parse to the same value. -/
@@ -215,8 +217,8 @@ theorem c10_type_ws_invisible (s1 s2 : STy) (h1 : s1.Ok) (h2 : s2.Ok) (he : s1.e
     (hr : SepOk rest) (ht : TokHead rest) (F : Nat) (hF1 : s1.cost + 110 ≤ F) (hF2 : s2.cost + 110 ≤ F) :
     ∃ t1 t2, parse F grammar "FieldType" (s1.render ++ rest) = .ok t1 rest ∧ parse F grammar "FieldType" (s2.render ++ rest) = .ok t2 rest ∧
       evTy (tyFuel t1) t1 = evTy (tyFuel t2) t2 := by
-  obtain ⟨t1, p1, e1⟩ := c10_type_roundtrip s1 h1 rest hr ht F hF1
-  obtain ⟨t2, p2, e2⟩ := c10_type_roundtrip s2 h2 rest hr ht F hF2
+  obtain ⟨t1, p1, e1⟩ := c10_type_roundtrip_partial s1 h1 rest hr ht F hF1
+  obtain ⟨t2, p2, e2⟩ := c10_type_roundtrip_partial s2 h2 rest hr ht F hF2
   exact ⟨t1, t2, p1, p2, by rw [e1, e2, he]⟩
 
 /-- The hypotheses are satisfiable: `list< base.Item>` before `)`. -/
@@ -230,41 +232,9 @@ example : (STy.list [' '] (.named "base.Item".toList) []).Ok ∧ SepOk [')'] ∧
 
 /-! ### white space and comments -/
 
-/-- Texts made of the items of `_`: white space characters and one-line block comments
-`/*` body `*/` (body without `*/`, without newline, not starting with `*@`). -/
-inductive UGapText : List Char → Prop
-  | nil : UGapText []
-  | ws (c : Char) (h : wsC c = true) : UGapText [c]
-  | block (body : List Char) (hb : BlockBody body) (hnl : ∀ c ∈ body, c ≠ '\n') : UGapText ('/' :: '*' :: body ++ ['*', '/'])
-  | append {a b : List Char} : UGapText a → UGapText b → UGapText (a ++ b)
-
-/-- Texts made of the items of `__`: white space, newlines, block comments (also multi-line),
-`//` and `#` comments up to and including their newline. -/
-inductive UUGapText : List Char → Prop
-  | nil : UUGapText []
-  | ws (c : Char) (h : wsC c = true) : UUGapText [c]
-  | newline : UUGapText ['\n']
-  | block (body : List Char) (hb : BlockBody body) : UUGapText ('/' :: '*' :: body ++ ['*', '/'])
-  | line (o body : List Char) (ho : LineOpener o) (hnl : ∀ c ∈ body, c ≠ '\n') : UUGapText (o ++ (body ++ ['\n']))
-  | append {a b : List Char} : UUGapText a → UUGapText b → UUGapText (a ++ b)
-
 /-- Every such text is consumed item by item by the repetition of the gap rule, whatever follows. -/
-theorem c10_gap_texts : (∀ g, UGapText g → IsGap uBody g) ∧ (∀ g, UUGapText g → IsGap uuBody g) := by
-  constructor
-  · intro g h
-    induction h with
-    | nil => exact IsGap.nil _
-    | ws c h => exact IsGap.wsChar_u c h
-    | block body hb hnl => exact IsGap.block_u body hb hnl
-    | append _ _ ih1 ih2 => exact ih1.append ih2
-  · intro g h
-    induction h with
-    | nil => exact IsGap.nil _
-    | ws c h => exact IsGap.wsChar_uu c h
-    | newline => exact IsGap.newline_uu
-    | block body hb => exact IsGap.block_uu body hb
-    | line o body ho hnl => exact IsGap.line_uu o body ho hnl
-    | append _ _ ih1 ih2 => exact ih1.append ih2
+theorem c10_gap_texts : (∀ g, UGapText g → IsGap uBody g) ∧ (∀ g, UUGapText g → IsGap uuBody g) :=
+  ⟨fun _ h => h.isGap, fun _ h => h.isGap⟩
 
 /-- Rules `_` and `__` consume exactly such a text when a token follows (a character that starts
 no gap item: not white space, newline, `/`, `#`) or the input ends; fuel `2·|g| + 70`. -/
